@@ -11,6 +11,11 @@ package main
 import "strings"
 
 type preinst struct {
+	matchMode bool                 // candidates come from trigger matching against the ground pool
+	pool      map[string][]*Term   // array term -> ground index terms it is read at
+	poolSeen  map[string]bool
+	poolArr   map[string]*Term // array term by its string
+	active    map[string]bool  // index terms derived from the goal (goal-directed pool growth)
 	known map[string]*Term // asserted quantified facts (and their top-level conjuncts) -> the guard they hold under
 	tiny bool
 	focusSyms []*Term
@@ -246,6 +251,10 @@ func (p *preinst) walk(ctx []*Term, t *Term, depth int) {
 			p.walk(append(append([]*Term{}, ctx...), Not(Or(rest...))), q[0], depth)
 		}
 	case "forall":
+		if p.matchMode {
+			p.walkMatched(ctx, t, depth)
+			return
+		}
 		if len(t.Bound) == 2 && t.Bound[0].S == SInt && t.Bound[1].S == SInt && p.pairs {
 			// two integer variables: pairs of the skolem constants (and their
 			// successors), which is what distinctness / ordering facts need
@@ -454,7 +463,9 @@ func preInstantiate(D *Decls, asserts []*Term, focus []*Term, withPairs bool, hi
 			w := D.Fresh("w.streq", SInt)
 			wit = append(wit, Or(x, Neq(SLen(a), SLen(b)), And(Le(IntLit(0), w), Lt(w, SLen(a)), Neq(SAt(a, w), SAt(b, w)))))
 			wit = append(wit, Imp(x, Eq(SLen(a), SLen(b))))
-			p.ints = append([]*Term{w}, p.ints...)
+			// witnesses rank after the goal's own constants, which must stay in the first batch
+			at := min(len(p.ints), 6)
+			p.ints = append(p.ints[:at:at], append([]*Term{w}, p.ints[at:]...)...)
 			pairs = append(pairs, pair{a, b})
 		})
 	}
@@ -480,6 +491,40 @@ func preInstantiate(D *Decls, asserts []*Term, focus []*Term, withPairs bool, hi
 	// batch, so that late hypotheses are not starved by the instance budget.
 	p.pairs = false
 	allInts := p.ints
+	// Quantified hypotheses are visited nearest-first: those that share a
+	// state symbol (heap array, trace, ...) with the goal, then those sharing
+	// one with these, and so on, so that the frame chain from the goal's state
+	// back to the entry state is instantiated before the budget runs out.
+	asserts = orderByRelevance(asserts, focus)
+	// pass A: trigger matching, seeded by the goal, then by everything, then by
+	// what the first rounds produced
+	{
+		p.matchMode = true
+		saveLimit := p.limit
+		perRound, rounds := 900, 9
+		if tiny {
+			perRound, rounds = 200, 3
+		}
+		p.addPool(focus, false)
+		for round := 0; round < rounds; round++ {
+			n0 := len(p.out)
+			p.limit = n0 + perRound
+			for _, a := range asserts {
+				if hasQuantStrict(a) {
+					p.walk(nil, a, 0)
+				}
+			}
+			if round == 0 {
+				p.addPool(all, true)
+			}
+			p.addPool(p.out[n0:], true)
+			if len(p.out) == n0 && round > 0 {
+				break
+			}
+		}
+		p.matchMode = false
+		p.limit = saveLimit + (len(p.out))
+	}
 	batches := []int{6, 16, len(allInts)}
 	if tiny {
 		batches = []int{8}
@@ -506,6 +551,7 @@ func preInstantiate(D *Decls, asserts []*Term, focus []*Term, withPairs bool, hi
 				p.walk(nil, a, 0)
 			}
 		}
+		p.limit += 400
 		p.engineInstances(append(append([]*Term{}, all...), p.out...))
 		return p.out
 	}
@@ -520,6 +566,7 @@ func preInstantiate(D *Decls, asserts []*Term, focus []*Term, withPairs bool, hi
 		}
 		p.pairsOnly = false
 	}
+	p.limit += 800
 	p.engineInstances(append(append([]*Term{}, all...), p.out...))
 	// second round: index expressions that only appear in the instances just
 	// produced (e.g. tr[pos[k]] after instantiating an invariant at k)
@@ -561,6 +608,25 @@ func preInstantiate(D *Decls, asserts []*Term, focus []*Term, withPairs bool, hi
 // applications that occur, at the candidate integers.
 func (p *preinst) engineInstances(all []*Term) {
 	seen := map[string]bool{}
+	// reads select(select(M, row), idx) of map heaps, by M: who is a member of which set
+	type rowRead struct{ row, idx *Term }
+	rowReads := map[string][]rowRead{}
+	rrSeen := map[string]bool{}
+	for _, t := range all {
+		t.Walk(func(x *Term) {
+			if x.IsSym || x.Op != "select" || len(x.Args) != 2 || x.S != SBool {
+				return
+			}
+			in := x.Args[0]
+			if in.IsSym || in.Op != "select" || len(in.Args) != 2 || !isGroundTerm(x) {
+				return
+			}
+			if k := x.String(); !rrSeen[k] && len(rowReads[in.Args[0].String()]) < 24 && x.Args[1].Size() <= 48 {
+				rrSeen[k] = true
+				rowReads[in.Args[0].String()] = append(rowReads[in.Args[0].String()], rowRead{in.Args[1], x.Args[1]})
+			}
+		})
+	}
 	// string identities: sid(a) = sid(b) <=> a, b have the same contents
 	var sids []*Term
 	sidSeen := map[string]bool{}
@@ -735,6 +801,22 @@ func (p *preinst) engineInstances(all []*Term) {
 				for _, c := range p.ints {
 					p.emit(nil, Imp(Select(d, c), Gt(x, IntLit(0))))
 				}
+				// members read elsewhere from the same set, or from a row of the same
+				// map heap that may be the same row: d = select(M, X), read select(select(M, X'), c)
+				if !d.IsSym && d.Op == "select" && len(d.Args) == 2 {
+					n := 0
+					for _, rd := range rowReads[d.Args[0].String()] {
+						if n > 16 {
+							break
+						}
+						n++
+						if rd.row.String() == d.Args[1].String() {
+							p.emit(nil, Imp(Select(d, rd.idx), Gt(x, IntLit(0))))
+						} else {
+							p.emit(nil, Imp(And(Eq(rd.row, d.Args[1]), Select(Select(d.Args[0], rd.row), rd.idx)), Gt(x, IntLit(0))))
+						}
+					}
+				}
 				if !d.IsSym && d.Op == "store" && len(d.Args) == 3 {
 					d0, kk, v := d.Args[0], d.Args[1], d.Args[2]
 					c0 := App("card", SInt, d0)
@@ -775,4 +857,219 @@ func hasTwoVarForall(t *Term) bool {
 		}
 	})
 	return found
+}
+
+// stateSyms: nullary non-scalar symbols (heap arrays, traces, ghost maps) of a term.
+func stateSyms(t *Term, into map[string]bool) {
+	t.Walk(func(x *Term) {
+		if x.IsSym && len(x.Args) == 0 && x.S.IsArr() {
+			into[x.Op] = true
+		}
+	})
+}
+
+// orderByRelevance sorts the quantified hypotheses by breadth-first distance
+// (through shared state symbols) from the focus; unquantified ones keep their
+// place at the front. Stable within a distance class.
+func orderByRelevance(asserts []*Term, focus []*Term) []*Term {
+	reached := map[string]bool{}
+	for _, f := range focus {
+		stateSyms(f, reached)
+	}
+	type item struct {
+		t    *Term
+		syms map[string]bool
+		done bool
+	}
+	var quant []*item
+	var out []*Term
+	for _, a := range asserts {
+		if hasQuantStrict(a) {
+			it := &item{t: a, syms: map[string]bool{}}
+			stateSyms(a, it.syms)
+			quant = append(quant, it)
+		} else {
+			out = append(out, a)
+		}
+	}
+	for round := 0; round < 12; round++ {
+		var layer []*item
+		for _, it := range quant {
+			if it.done {
+				continue
+			}
+			for s := range it.syms {
+				if reached[s] {
+					layer = append(layer, it)
+					break
+				}
+			}
+		}
+		if len(layer) == 0 {
+			break
+		}
+		for _, it := range layer {
+			it.done = true
+			out = append(out, it.t)
+		}
+		for _, it := range layer {
+			for s := range it.syms {
+				reached[s] = true
+			}
+		}
+	}
+	for _, it := range quant {
+		if !it.done {
+			out = append(out, it.t)
+		}
+	}
+	return out
+}
+
+// ---------------------------------------------------------------------------
+// Trigger-style instantiation. A bound variable v that occurs as the index of
+// a read select(A, v) with A free of bound variables is matched against the
+// ground reads select(A, t) present in the hypotheses, the goal and the
+// instances produced so far: v := t. This is what an SMT solver's E-matching
+// does with the pattern select(A, v); doing it here keeps the queries ground
+// and the instance sets small and relevant.
+
+func (p *preinst) addPool(ts []*Term, restrict bool) {
+	if p.pool == nil {
+		p.pool = map[string][]*Term{}
+		p.poolSeen = map[string]bool{}
+		p.poolArr = map[string]*Term{}
+		p.active = map[string]bool{}
+	}
+	// with restrict, only reads whose index is (or is built from) a term already
+	// derived from the goal are added: the pool grows along the goal's frame
+	// chains instead of over everything the hypotheses mention
+	derived := func(idx *Term) bool {
+		ok := false
+		idx.Walk(func(y *Term) {
+			if !ok && y.S == SInt && p.active[y.String()] {
+				ok = true
+			}
+		})
+		return ok
+	}
+	for _, t := range ts {
+		t.Walk(func(x *Term) {
+			if x.IsSym || x.Op != "select" || len(x.Args) != 2 || x.Args[1].S != SInt {
+				return
+			}
+			if !isGroundTerm(x) {
+				return
+			}
+			if _, isC := x.Args[1].IntVal(); isC {
+				return
+			}
+			if x.Args[1].Size() > 48 {
+				return
+			}
+			if restrict && !derived(x.Args[1]) {
+				return
+			}
+			ak := x.Args[0].String()
+			ik := x.Args[1].String()
+			k := ak + "|" + ik
+			if p.poolSeen[k] {
+				return
+			}
+			p.poolSeen[k] = true
+			p.active[ik] = true
+			if len(p.pool[ak]) < 24 {
+				p.pool[ak] = append(p.pool[ak], x.Args[1])
+				p.poolArr[ak] = x.Args[0]
+			}
+		})
+	}
+}
+
+// matchCands: ground terms the bound variable name can be matched to.
+func (p *preinst) matchCands(body *Term, name string, bound map[string]bool) []*Term {
+	seen := map[string]bool{}
+	var out []*Term
+	body.Walk(func(x *Term) {
+		if x.IsSym || x.Op != "select" || len(x.Args) != 2 {
+			return
+		}
+		v := x.Args[1]
+		if v.IsSym || len(v.Args) != 0 || v.Op != name {
+			return
+		}
+		// the array must not mention bound variables
+		free := true
+		x.Args[0].Walk(func(y *Term) {
+			if len(y.Args) == 0 && !y.IsSym && bound[y.Op] {
+				free = false
+			}
+		})
+		if !free {
+			return
+		}
+		for _, c := range p.pool[x.Args[0].String()] {
+			if k := c.String(); !seen[k] && len(out) < 16 {
+				seen[k] = true
+				out = append(out, c)
+			}
+		}
+	})
+	return out
+}
+
+func (p *preinst) walkMatched(ctx []*Term, t *Term, depth int) {
+	if len(t.Bound) > 2 {
+		return
+	}
+	bound := map[string]bool{}
+	for _, b := range t.Bound {
+		if b.S != SInt {
+			return
+		}
+		bound[b.Name] = true
+	}
+	c0 := p.matchCands(t.Args[0], t.Bound[0].Name, bound)
+	if len(t.Bound) == 1 {
+		for _, c := range c0 {
+			inst := t.Args[0].Subst(map[string]*Term{t.Bound[0].Name: c})
+			p.emit(ctx, stripQuant(inst))
+			p.walk(ctx, inst, depth+1)
+		}
+		return
+	}
+	c1 := p.matchCands(t.Args[0], t.Bound[1].Name, bound)
+	// a variable without a direct trigger is matched after substituting the other
+	if len(c0) > 0 && len(c1) == 0 {
+		for _, a := range c0 {
+			part := t.Args[0].Subst(map[string]*Term{t.Bound[0].Name: a})
+			for _, b := range p.matchCands(part, t.Bound[1].Name, map[string]bool{t.Bound[1].Name: true}) {
+				inst := part.Subst(map[string]*Term{t.Bound[1].Name: b})
+				p.emit(ctx, stripQuant(inst))
+			}
+		}
+		return
+	}
+	if len(c1) > 0 && len(c0) == 0 {
+		for _, b := range c1 {
+			part := t.Args[0].Subst(map[string]*Term{t.Bound[1].Name: b})
+			for _, a := range p.matchCands(part, t.Bound[0].Name, map[string]bool{t.Bound[0].Name: true}) {
+				inst := part.Subst(map[string]*Term{t.Bound[0].Name: a})
+				p.emit(ctx, stripQuant(inst))
+			}
+		}
+		return
+	}
+	if len(c0) > 8 {
+		c0 = c0[:8]
+	}
+	if len(c1) > 8 {
+		c1 = c1[:8]
+	}
+	for _, a := range c0 {
+		for _, b := range c1 {
+			inst := t.Args[0].Subst(map[string]*Term{t.Bound[0].Name: a, t.Bound[1].Name: b})
+			p.emit(ctx, stripQuant(inst))
+		}
+	}
 }
